@@ -50,8 +50,15 @@ AttrDel(n) ==
        THEN data' = Del(data, n) /\ objattr' = objattr /\ last' = R("del", n, "attr", "ok")
        ELSE UNCHANGED <<data, objattr>> /\ last' = R("del", n, "attr", "AttributeError")
 
-Next == \E n \in Names : \/ \E v \in 1..2 : ItemSet(n, v) \/ AttrSet(n, v)
-                         \/ ItemGet(n) \/ ItemDel(n) \/ AttrGet(n) \/ AttrDel(n)
+\* another object / process rewrites the resource: the dict content becomes anything, the object is untouched.
+\* Every other action is stated on the CURRENT data - the object's cached copy plays no role (the harness reaches
+\* a share of the pre-states through this action: object loaded with other data, then the outside write).
+Ext == /\ \E S \in SUBSET Names : \E d2 \in [S -> 1..2] : d2 # data /\ data' = d2
+       /\ objattr' = objattr /\ last' = R("ext", "", "", "")
+
+Next == \/ \E n \in Names : \/ \E v \in 1..2 : ItemSet(n, v) \/ AttrSet(n, v)
+                            \/ ItemGet(n) \/ ItemDel(n) \/ AttrGet(n) \/ AttrDel(n)
+        \/ Ext
 
 \* item access never disturbs the object; attribute access to object names never changes the data
 C18_ItemsNeverTouchObject == [][last'.how = "item" => objattr' = objattr]_avars
@@ -60,6 +67,7 @@ C18_ObjectNamesNeverTouchData == [][(last'.how = "attr" /\ OnObject(last'.name))
 C18_AttrEqualsItem ==
   [][(last'.how = "attr" /\ Class[last'.name] = "ordinary" /\ last'.kind = "get") =>
         last'.ret = (IF last'.name \in DOMAIN data THEN ToString(data[last'.name]) ELSE "AttributeError")]_avars
-Export == PrintT("EDGE " \o ToJson([data |-> data, objattr |-> objattr, last |-> last', data2 |-> data', objattr2 |-> objattr']))
+C18_OutsideWriteNeverTouchesObject == [][last'.kind = "ext" => objattr' = objattr]_avars
+Export == last'.kind = "ext" \/ PrintT("EDGE " \o ToJson([data |-> data, objattr |-> objattr, last |-> last', data2 |-> data', objattr2 |-> objattr']))
 view == <<data, objattr>>
 =============================================================================
